@@ -116,9 +116,69 @@ static void out_set(const std::string& p, const ParticleSet& ps) {
     vf::out_mat(p + "_cov", ps.covariance()); vf::out_mat(p + "_lw", ps.weight());
 }
 
+// kinds gpf_fresh / gpf_moved: lifetime of valid_likelihood_ and of the random source
+// (findings C08:getLikelihood-valid-before-first-correction, C08:moved-object-draws-from-moved-from-object).
+// The objects are placement-constructed in a buffer the harness fills with 0xFF, so that
+// what is read from never-written / destroyed storage is deterministic.
+alignas(64) static unsigned char g_buf[sizeof(GPFCorrection) + 64];
+
+static void lifetime_case(const vf::Case& c) {
+    const long n = c.mi("n"), N = c.mi("N");
+    const unsigned seed = (unsigned)c.integer("seed");
+    const double scale = c.mat("scale")(0, 0);
+    Shared sh; sh.y = c.mat("ys").col(0);
+    ParticleSet pred(N, n);
+    fill(pred, c, "c");
+    vf::out_begin(c.id);
+    if (c.kind == "gpf_fresh") {
+        std::memset(g_buf, 0xFF, sizeof g_buf);
+        GPFCorrection* g = new (g_buf) GPFCorrection(std::unique_ptr<LikelihoodModel>(new ScriptedLik(scale, &sh)), make_gc(c, &sh), make_trans(c), seed);
+        bool ok; VectorXd lik;
+        { vf::Entry e("GPFCorrection::getLikelihood"); std::tie(ok, lik) = g->getLikelihood(); }
+        vf::out_int("fresh_valid", ok ? 1 : 0);
+        vf::out_int("fresh_lik_size", lik.size());
+        g->~GPFCorrection();
+    } else {
+        ParticleSet ca(N, n), cb(N, n), r1(N, n), r2(N, n);
+        std::memset(g_buf, 0, sizeof g_buf);
+        GPFCorrection* a = new (g_buf) GPFCorrection(std::unique_ptr<LikelihoodModel>(new ScriptedLik(scale, &sh)), make_gc(c, &sh), make_trans(c), seed);
+        { vf::Entry e("GPFCorrection::correct"); a->freeze_measurements(); a->correct(pred, ca); }     // writes valid_likelihood_
+        GPFCorrection b(std::move(*a));
+        a->~GPFCorrection();
+        std::memset(g_buf, 0xFF, sizeof g_buf);
+        { vf::Entry e("GPFCorrection::correct(moved-to object)"); b.freeze_measurements(); b.correct(pred, cb); }
+        GPFCorrection r(std::unique_ptr<LikelihoodModel>(new ScriptedLik(scale, &sh)), make_gc(c, &sh), make_trans(c), seed);
+        r.freeze_measurements(); r.correct(pred, r1); r.correct(pred, r2);
+        vf::out_mat("first_state", ca.state()); vf::out_mat("ref_first_state", r1.state());
+        vf::out_mat("moved_state", cb.state()); vf::out_mat("ref_state", r2.state());
+        // move assignment, every object alive (no undefined behaviour on any version of the code):
+        //   a2 = move(a1); a1 = move(a3); a2.correct(...)
+        // a2 must continue a1's seeded stream on its own generator and use a1's likelihood model (scale 1.0)
+        {
+            ParticleSet t0(N, n), cB(N, n), q1(N, n), q2(N, n);
+            GPFCorrection a1(std::unique_ptr<LikelihoodModel>(new ScriptedLik(1.0, &sh)), make_gc(c, &sh), make_trans(c), seed);
+            GPFCorrection a2(std::unique_ptr<LikelihoodModel>(new ScriptedLik(2.5, &sh)), make_gc(c, &sh), make_trans(c), seed + 1);
+            GPFCorrection a3(std::unique_ptr<LikelihoodModel>(new ScriptedLik(4.0, &sh)), make_gc(c, &sh), make_trans(c), seed + 2);
+            a1.freeze_measurements(); a1.correct(pred, t0);
+            a2 = std::move(a1);
+            a1 = std::move(a3);
+            { vf::Entry e("GPFCorrection::correct(move-assigned object)"); a2.freeze_measurements(); a2.correct(pred, cB); }
+            bool ok; VectorXd lik; std::tie(ok, lik) = a2.getLikelihood();
+            GPFCorrection q(std::unique_ptr<LikelihoodModel>(new ScriptedLik(1.0, &sh)), make_gc(c, &sh), make_trans(c), seed);
+            q.freeze_measurements(); q.correct(pred, q1); q.correct(pred, q2);
+            bool qok; VectorXd qlik; std::tie(qok, qlik) = q.getLikelihood();
+            vf::out_mat("assign_state", cB.state()); vf::out_mat("ref_assign_state", q2.state());
+            vf::out_int("assign_valid", ok ? 1 : 0); vf::out_int("ref_assign_valid", qok ? 1 : 0);
+            vf::out_mat("assign_lik", lik); vf::out_mat("ref_assign_lik", qlik);
+        }
+    }
+    vf::out_end();
+}
+
 int main() {
     vf::Case c;
     while (vf::read_case(std::cin, c)) {
+        if (c.kind == "gpf_fresh" || c.kind == "gpf_moved") { lifetime_case(c); continue; }
         const long n = c.mi("n"), N = c.mi("N"), steps = c.mi("steps");
         const MatrixXd& ys = c.mat("ys");
         const std::vector<std::string>& mv = c.word("mv");
